@@ -155,6 +155,7 @@ def generate(rng, opts):
     p_clear = r.choice([0.0, 0.0, 0.02, 0.08])
     p_append = r.choice([0.0, 0.0, 0.05, 0.15])
     p_ill = r.choice([0.0, 0.0, 0.0, 0.03])
+    p_alloc = r.choice([0.0, 0.0, 0.0, 0.02, 0.08])
     for c in cmds:
         x = r.random()
         if x < p_reader:
@@ -172,6 +173,8 @@ def generate(rng, opts):
                 events.append(["extend", k])
         if r.random() < p_ill:
             events.append(copy.deepcopy(r.choice(ILL)))
+        if r.random() < p_alloc:
+            events.append(["allocfail", r.choice([0, 0, 1, 2, 3, 5, 8])])     # the next command meets a failing allocation
         events.append(c)
     events.append(["snapshot"])
     if r.random() < 0.3:
@@ -427,6 +430,8 @@ def execute(node, case, rec, opts):
     alive = True
     nsnap_inside_open = 0
     union_src_used = False   # an append/extend took its elements from a union-typed array (known finding F14)
+    pending_fail = None      # countdown for the allocation-failure fault of the next command
+    seam = node.alloc_supported()
 
     def check_old_snapshots(t, why):
         for si, s in enumerate(snaps):
@@ -580,13 +585,33 @@ def execute(node, case, rec, opts):
             check_old_snapshots(t, k)
             continue
 
+        if k == "allocfail":
+            pending_fail = ev[1] if seam else None
+            continue
+
         # ---- an ordinary builder command
         legal = model.apply(ev) if strict else None
         raised = None
+        if pending_fail is not None:
+            node.alloc_arm(pending_fail)
         try:
             b.send(ev)
         except NodeError as e:
             raised = e
+        if pending_fail is not None:
+            fired, _ = node.alloc_disarm()
+            pending_fail = None
+            if fired:
+                # a command that met an allocation failure may raise anything ordinary; what it leaves behind in the
+                # builder is unspecified (like after a refused call) - older snapshots must not care, nothing may crash
+                rec.fault("allocation_failure")
+                rec.ev(t, ev, "alloc_failure", None if raised is None else raised.cls)
+                if raised is not None and raised.cls == "nonstd":
+                    raise Violation("robustness", "nonstd_exception", {"event": ev, "error": [raised.cls, raised.msg[:300]]}, at=t)
+                strict = False
+                check_old_snapshots(t, "allocation failure in " + ev[0])
+                rec.probe("allocation_failure_survived")
+                continue
         traised = None
         try:
             twin.send(ev)
@@ -740,7 +765,7 @@ RULE = ("one run = seeded typed value trees linearised into the builder alphabet
         "the Form-driven LayoutBuilder instead: a seeded type, its Form, seeded values as command sequences, snapshots "
         "at value boundaries and in the middle of values, a twin under other growth settings, one ill-typed or "
         "ill-nested command")
-REQUIRED_PROBES = {"quick": ["old_snapshot_reread", "lb_snapshots_compared", "lb_old_snapshot_reread"],
+REQUIRED_PROBES = {"quick": ["allocation_failure_survived", "old_snapshot_reread", "lb_snapshots_compared", "lb_old_snapshot_reread"],
                    "thorough": ["old_snapshot_reread", "append_out_of_range_refused", "lb_snapshots_compared", "lb_ill_refused"]}
 
 
